@@ -64,7 +64,7 @@ def cases(rng, tier):
     out.append({"wgsl": base + big_uni + "\n", "family": "embedded_large_unicode", "opts": {"rustfmt": False}, "include": None})
     paths = ["shader.wgsl", "dir/sub dir/shader.wgsl", "a\"b.wgsl", "back\\slash.wgsl", "{brace}.wgsl", "unié\U0001F600.wgsl",
              "tab\there.wgsl", "new\nline.wgsl", "nul\x00.wgsl", "nul\x007.wgsl", "quote'.wgsl", "../up/one.wgsl", "cr\rlf.wgsl",
-             "‮rtl.wgsl", ""]
+             "‮rtl.wgsl", "", "env!(\"OUT_DIR\")", "concat!(\"a\", \"/b.wgsl\")", "concat!()", "include_str!(\"x\")", "r#\"raw\"#"]
     for i, p in enumerate(paths):
         base = W.random_program(rng).render()
         out.append({"wgsl": base, "family": "include_path", "opts": {"rustfmt": i % 3 == 0}, "include": p})
